@@ -100,6 +100,8 @@ pub struct Config {
     pub max_execs: usize,
     /// Polls without observable change after which a self-waking task counts as quiescent.
     pub k_noprogress: usize,
+    /// C20: the whole run is polled inside an outer user span.
+    pub outer_span: bool,
 }
 
 impl Default for Config {
@@ -132,6 +134,7 @@ impl Default for Config {
             expect_conservation: false,
             max_execs: 200_000,
             k_noprogress: 4,
+            outer_span: false,
         }
     }
 }
